@@ -222,7 +222,11 @@ func c02Types(c *work.Ctx) {
 			c.NotExhaustive(fmt.Sprintf("deadline reached at type %d of %d", ti, len(types)))
 			return
 		}
-		ex := &explore.Explorer{Bound: thoroughBound(D, ti, c.NShards)}
+		bound := D
+		if !c.Quick() {
+			bound = thoroughBound(D, ti, c.NShards)
+		}
+		ex := &explore.Explorer{Bound: bound}
 		ex.Run(func(ch *explore.Chooser) {
 			doc := universe.GenDoc(t, ch, 0)
 			doc.For = t
